@@ -5,6 +5,7 @@ import (
 	"context"
 	"encoding/json"
 	"fmt"
+	"slices"
 	"strings"
 
 	"kmipverif/simnet"
@@ -21,7 +22,10 @@ type C09Sc struct {
 	Reqs      []ReqSc `json:"reqs"`       // one per task
 	EndToEnd  bool    `json:"end_to_end"` // real client -> simnet -> real server instead of direct HandleRequest calls
 	Supported int     `json:"supported"`  // bitmask of versions the executor supports; 0 = default
-	Chunk     int     `json:"chunk,omitempty"`
+	// SupportedSpelling: how the set is handed to SetSupportedProtocolVersions: 0 ascending, 1 descending, 2 with its
+	// first element repeated at the end, 3 every element twice
+	SupportedSpelling int `json:"supported_spelling,omitempty"`
+	Chunk             int `json:"chunk,omitempty"`
 }
 
 var c09Outcomes = []ItemSc{
@@ -35,7 +39,7 @@ func genReqSc(g *simrt.Tape, maxItems int) ReqSc {
 	case 0:
 		rs.Version = 5
 	case 1:
-		rs.Version = 6
+		rs.Version = []int{6, 7, 8}[g.Draw(3)]
 	default:
 		rs.Version = g.Draw(5)
 	}
@@ -78,6 +82,7 @@ func genC09(g *simrt.Tape, tier string) any {
 	sc.EndToEnd = g.Draw(3) == 0
 	if g.Draw(4) == 0 {
 		sc.Supported = 1 + g.Draw(31)
+		sc.SupportedSpelling = g.Draw(4)
 	}
 	sc.Chunk = []int{simnet.ChunkMax, simnet.ChunkRandom}[g.Draw(2)]
 	return sc
@@ -258,7 +263,16 @@ func execC09(x *X, scAny any) {
 	supported := []kmip.ProtocolVersion{kmip.V1_0, kmip.V1_1, kmip.V1_2, kmip.V1_3, kmip.V1_4}
 	if sc.Supported != 0 {
 		supported = setOf(sc.Supported)
-		w.exec.SetSupportedProtocolVersions(setOf(sc.Supported)...)
+		list := setOf(sc.Supported)
+		switch sc.SupportedSpelling % 4 {
+		case 1:
+			slices.Reverse(list)
+		case 2:
+			list = append(list, list[0])
+		case 3:
+			list = append(list, list...)
+		}
+		w.exec.SetSupportedProtocolVersions(list...)
 	}
 	resps := make([]*kmip.ResponseMessage, len(sc.Reqs))
 	errs := make([]error, len(sc.Reqs))
@@ -398,6 +412,10 @@ func init() {
 					rs.Items = items[:i%3]
 				}
 				return &C09Sc{Reqs: []ReqSc{rs}}
+			}},
+			{Name: "supported-set-spellings", Count: func(string) int { return 3 * 4 * 9 }, Scenario: func(_ string, i int) any {
+				return &C09Sc{Supported: []int{5, 20, 31}[i%3], SupportedSpelling: (i / 3) % 4,
+					Reqs: []ReqSc{{Version: i / 12, Option: 1, Items: []ItemSc{{Tok: "ok"}, {Tok: "ok"}}}}}
 			}},
 			{Name: "header-elements", Count: func(string) int { return len(allHdrs()) * 4 }, Scenario: func(_ string, i int) any {
 				hs := allHdrs()
